@@ -319,7 +319,7 @@ fn main() {
     // own-area threshold enabled): the share recorded with the newest observation of every touched track must equal the
     // share of that detection among the detections of ITS scene in THIS call
     {
-        use vh::posref::own_shares;
+        use vh::posref::own_shares_lib as own_shares;
         use vh::trk::*;
         let nh = cli.cases(96, 1200);
         for k in cli.index_range(nh) {
